@@ -588,6 +588,21 @@ func (r *runner) checkSound(s *Search, res *simenv.SearchRes, where string) bool
 		r.violate("search_limit", "%s search %q returned %d ids for limit %d", where, s.Q.SeqQL(), len(res.Hits), s.Size)
 		return false
 	}
+	// a document with nested elements is indexed as several rows under one ID; the listing may
+	// name it once per matching row (adjacent): that is one document, not a duplicate
+	if len(res.Hits) > 1 {
+		out := res.Hits[:1]
+		for _, h := range res.Hits[1:] {
+			if h.ID == out[len(out)-1].ID {
+				if d := r.issued[mid(h.ID)]; d != nil && len(d.Nested) > 0 {
+					r.s.Probe("nested_rows_listed_adjacent")
+					continue
+				}
+			}
+			out = append(out, h)
+		}
+		res.Hits = out
+	}
 	var prev model.ID
 	for i, h := range res.Hits {
 		id := mid(h.ID)
